@@ -337,7 +337,7 @@ impl Property for C13 {
             .boxed()
     }
     fn budget(&self, tier: Tier) -> Budget {
-        Budget::new(tier.pick(40_000, 1_500_000), tier.pick(8, 16)).min_nontrivial(tier.pick(3_000, 100_000))
+        Budget::new(tier.pick(40_000, 600_000), tier.pick(8, 16)).min_nontrivial(tier.pick(3_000, 50_000))
     }
     fn rule(&self) -> String {
         "1-4 typed key columns (every primitive, bool, bytes, views, fixed-size binary, dictionary, nested row-backed, Decimal64 forcing GroupValuesRows), GroupOrdering None/Full, \
